@@ -2,12 +2,13 @@
 import itertools
 
 from vlib import harness as H
+from vlib import texgen as G
 from vlib import tokstr as T
 from vlib import oracles as O
 
 RULE = ('comment payloads over a hostile alphabet (braces, brackets, dollars, backslashes, \\begin/\\end of the enclosing and '
         'of other environments, \\item, %, math switches, an otherwise absent command) - exhaustive up to L symbols, random '
-        'beyond - in 16 contexts (top level, group, environment body, brace/bracket argument of a command, of an '
+        'beyond, every payload length up to 1100 (4200) characters - in 18 contexts (top level, group, environment body, brace/bracket argument of a command, of an '
         'environment, item label, item body, the four math delimiters, a named math environment, a definition body, '
         'end of input), preceded by nothing / text / a command / a command with groups, with 0..4 backslashes before the %. '
         'Metamorphic oracle for an even number of backslashes: the canonical tree equals that of the same context with '
@@ -20,7 +21,8 @@ ASSUMPTIONS = ['the reference payload REF is plain text; the context trees come 
 ATOMS = ['a', ' ', '{', '}', '[', ']', '$', '$$', '\\', '\\\\', '\\begin{e}', '\\end{e}', '\\end{itemize}', '\\end{align}',
          '\\item', '%', '\\(', '\\)', '\\[', '\\]', '\\hidden{q}', '\\end{verbatim}', '#', '~', '\\x{', '\\begin{itemize}',
          '\\end', '\t', '\x0c', '\u2028', '\x85', '\x0b',
-         '\\lstnewenvironment{e}{}{}', '\\DefineVerbatimEnvironment{itemize}', '\\newenvironment{e}', '\\begin{document}']
+         '\\lstnewenvironment{e}{}{}', '\\DefineVerbatimEnvironment{itemize}', '\\newenvironment{e}', '\\begin{document}',
+         '\\makeatletter', '\\catcode`\\@=11', '\\verb|', '\\iffalse', '\\endinput', '\\begin{comment}'] + ['\\' + n for n in G.EXTRA_NAMES]
 CONTEXTS = [
     ('top', 'a ', 'z'),
     ('group', 'p{q ', 'r}s'),
@@ -38,6 +40,9 @@ CONTEXTS = [
     ('align', '\\begin{align}q ', 'r\\end{align}'),
     ('definition', '\\newcommand{\\d}{q ', 'r}s'),
     ('end-of-input', 'a ', None),
+    # material behind the comment whose reading a declaration in the payload could change
+    ('before-at-names', 'a ', 'z \\p@q{y} w@x \\@r{s} \\fi \\end{comment} |v| t'),
+    ('cmd-then-comment-then-group', 'p \\o', '{a} s'),
 ]
 LEADS = ['', 'w ', '\\c', '\\c[o]{m}', 'w\\%']
 DANGEROUS = ('{', '}', '[', ']', '$', '\\end', '\\begin', '\\item', '\\)', '\\]', '\\(', '\\[')
@@ -120,7 +125,8 @@ def check_odd(ctx, lead, k, sub):
 def plan(ctx):
     L = ctx.pick(2, 3)
     return [('shard_exhaustive', [('ex', L, i, 32) for i in range(32)]),
-            ('shard_random', [('rnd', ctx.pick(1500, 40000), i) for i in range(16)])]
+            ('shard_random', [('rnd', ctx.pick(1500, 40000), i) for i in range(16)]),
+            ('shard_lengths', [('len', ctx.pick(1100, 4200), i, 16) for i in range(16)])]
 
 
 def shard_exhaustive(ctx, shard):
@@ -183,6 +189,38 @@ def shard_random(ctx, shard):
                  classes=['ctx:' + cx[0], 'backslashes:%d' % k])
 
     H.hyp_search(strat, prop, n, ctx.seed * 100 + idx, res, known=ctx.known)
+    return res
+
+
+LONG_CONTEXTS = ['top', 'group', 'env-body', 'cmd-bracket-arg', 'inline-math', 'item-body']
+LONG_FILL = ['a', 'a }$]\\end{e}\\item{[ ']
+
+
+def shard_lengths(ctx, shard):
+    """EVERY payload length 0..N (block / window sizes): the comment stays one leaf and ends at its line end."""
+    _, top, idx, nshard = shard
+    H.import_repo()
+    res = H.Result()
+    seen = set()
+    total = 0
+    cxs = [c for c in CONTEXTS if c[0] in LONG_CONTEXTS]
+    for n in range(idx, top + 1, nshard):
+        cx = cxs[n % len(cxs)]
+        for fill in LONG_FILL:
+            payload = (fill * (n // len(fill) + 1))[:n]
+            if payload.endswith('\\'):
+                payload = payload[:-1] + 'a'
+            total += 1
+            try:
+                case = check_even(cx, ['', 'w '][n % 2], 0, payload, 'length')
+            except H.Violation as v:
+                if v.kind not in seen:
+                    seen.add(v.kind)
+                    res.violations.append(v.record())
+                continue
+            res.case(case['src'], len(fill) > 1, sample={'context': cx[0], 'payload_length': n, 'payload_start': payload[:30]},
+                     classes=['ctx:' + cx[0], 'payload-length>=%d' % (n // 256 * 256)])
+    res.exhaustive['payload lengths 0..%d x 2 fillings (this run)' % top] = total
     return res
 
 
